@@ -191,6 +191,11 @@ func c08ParseJSON(body string) (any, bool) {
 	if err := dec.Decode(&v); err != nil {
 		return nil, false
 	}
+	// a JSON text is one value, white space aside: anything after it makes the body undecodable
+	var extra any
+	if err := dec.Decode(&extra); err != io.EOF {
+		return nil, false
+	}
 	return normJSON(v), true
 }
 
@@ -381,6 +386,9 @@ func c08Random(r *Rng) C08Case {
 		c.Body = `{"a":`
 	case 2:
 		c.Body = "plain text"
+	case 3:
+		// a JSON value followed by something else: not a JSON text (white space alone is fine)
+		c.Body += Pick(r, []string{" trailing", "{}", " 1", "]", "\n", " \t\n"})
 	}
 	return c
 }
